@@ -28,6 +28,10 @@ def obligations(tier):
             nf = max(3, w + 1)
             obs.append(Ob(f"{spec_name((kind, name, kw))}/fill-gap/n={nf}", dict(spec=[kind, name, kw], n=nf, mode="fill"), cfg,
                           weight=nf * (20 if name in EXTRA else 1), budget_s=900 if tier == "quick" else 7200, max_paths=200000))
+    # the two ADX periods are independent: a signal period longer / shorter than the DM period
+    for kw in (dict(period=2, period_signal=3),) + ((dict(period=3, period_signal=2),) if tier == "thorough" else ()):
+        nn = 4 if kw["period"] == 2 else 5
+        obs.append(Ob(f"{spec_name(('ind', 'ADX', kw))}/batch/n={nn}", dict(spec=["ind", "ADX", kw], n=nn, mode="batch"), TOT_UF, weight=200, budget_s=300 if tier == "quick" else 2400, max_paths=200000))
     for name, kw, w, extra in CONFIG_VARIANTS:
         n = w + 1 + EXTRA.get(name, 3)
         obs.append(Ob(f"cfg:{spec_name(('ind', name, kw))}{extra}/batch/n={n}", dict(spec=["ind", name, kw], n=n, mode="batch", extra=extra), TOT, weight=n * 5, budget_s=300, max_paths=200000))
